@@ -6,25 +6,27 @@ HOOK_COMMITS = ["1ce4350", "cf6c482"]
 
 SYM_NOTE = ("Trusted: the reading of the statement written in spec/Val.tla, Shape.tla, TensorOps.tla, Components.tla, Prog.tla (derivatives only by symbolic differentiation of definitions; closed forms cross-checked by TLC on rational instances); the float64 term evaluator and its first-order error bound (Go math on both sides). Shapes / arguments exhaustive within the stated grid; element values sampled (seeded, boundary values included), not exhaustive.")
 SYM_TECH = "TLA+ spec evaluated by TLC as exhaustive-in-bounds case generator; spec -> code replay with float64 assignments"
+TWINS = (" Every replayed case is additionally executed in four twin runs whose tensors, flags and gradients must be bit-identical to the plain run: all inputs untracked; read-only API calls (Slice, Reshape family, Transpose, reductions, Concat / Patch with the tensor as operand ...) interleaved after every instruction, the tensors those calls return being re-read at the end; a second epoch on the same tensor and component objects after ResetGradContext, following a back-propagated first epoch and following an untracked first epoch. Every instruction is framed by a bit-level snapshot of all existing tensors (shape, elements, gradient context).")
+BIG = " Tensors of 1000-16000 elements are covered through parametric templates (spec/Big.tla): one term over the output position per result, proved by TLC (ASSUME TemplatesAgree / GradTemplatesAgree) to unroll to the declarative definition at every position of every shape of the small grid."
 
 def sym(text, design, extra_note=""):
-    return dict(level="exploration", text=text, design=design, note=SYM_NOTE + extra_note, technique=SYM_TECH)
+    return dict(level="exploration", text=text + TWINS, design=design, note=SYM_NOTE + extra_note, technique=SYM_TECH)
 
 KF = " Known finding D2 (broadcast gradient is the mean, not the sum; known_findings.json): cases whose gradient equals exactly the deviation's prediction emitted by the spec (Backprop.tla, dev = broadcast_grad_mean) are reported as KNOWN-FINDING; any other discrepancy is a VIOLATION."
 
 CHECKS = {
- "C02": sym("TLC enumerates, for each of the 33 differentiable operations, every operand shape / argument / tracked-operand subset of the grid and emits the gradient each tracked operand must receive for an arbitrary upstream weighting, obtained by symbolic differentiation of the operation's declarative definition (the spec has no backward rules). The harness back-propagates the real graph with values from the operation's differentiability domain and compares shape, finiteness and every element; BackPropagate must not fail after an accepted forward call.", "DESIGN.md 3/C02"),
- "C03": sym("TLC enumerates every (element-wise operation, shape, parameter) and every broadcast-compatible ordered shape pair of the grid and emits the expected shape and the term of every result element, also for the explicitly-broadcast-first form; the harness executes each with float64 assignments (zeros, -0, ties, 1e+-150) and compares every element; incompatible pairs must be rejected.", "DESIGN.md 3/C03"),
- "C04": sym("TLC enumerates MatMul (all m,n,k x all broadcast-compatible batch-shape pairs, ranks 2..6), Dot (ranks 1..6) and Transpose (ranks 2..6) cases with the sum-of-products term of every element over distinct symbols, checks A.I = A, (A.B)^T = B^T.A^T and Dot = MatMul(row, column) on the spec with rational entries, and emits those identities as programs; the harness compares every element of the real results.", "DESIGN.md 3/C04"),
- "C05": sym("TLC enumerates every shape and every dim of the grid and emits the fibre-wise definition of Sum/Max/Min/Avg/Mean/Var/Std (whole tensor and Along(dim)), result shape = operand shape without dim; the harness compares every element for assignments with ties, zeros, single-element fibres and extreme magnitudes; invalid dims must be rejected.", "DESIGN.md 3/C05"),
- "C06": sym("TLC enumerates Slice/Patch with every index form, block size and position, Concat, Reshape (every factorisation), Flatten/Squeeze/UnSqueeze (every dim), Broadcast targets and the constructors, checks the round-trip laws on the spec (syntactic equality), and emits the element wiring; the harness uses iota inputs, reads every tensor back through At at every multi-index and compares exactly.", "DESIGN.md 3/C06"),
- "C07": sym("TLC enumerates explicit Broadcast (source x target grid) and every implicitly expanding operation over all compatible ordered shape pairs with either operand tracked, and emits the gradient by differentiation of the definition (= sum over copies). The harness compares every gradient element." + KF, "DESIGN.md 3/C07"),
+ "C02": sym("TLC enumerates, for each of the 33 differentiable operations, every operand shape / argument / tracked-operand subset of the grid and emits the gradient each tracked operand must receive for an arbitrary upstream weighting, obtained by symbolic differentiation of the operation's declarative definition (the spec has no backward rules). The harness back-propagates the real graph with values from the operation's differentiability domain and compares shape, finiteness and every element; BackPropagate must not fail after an accepted forward call." + BIG + "", "DESIGN.md 3/C02"),
+ "C03": sym("TLC enumerates every (element-wise operation, shape, parameter) and every broadcast-compatible ordered shape pair of the grid and emits the expected shape and the term of every result element, also for the explicitly-broadcast-first form; the harness executes each with float64 assignments (zeros, -0, ties, 1e+-150) and compares every element; incompatible pairs must be rejected." + BIG + "", "DESIGN.md 3/C03"),
+ "C04": sym("TLC enumerates MatMul (all m,n,k x all broadcast-compatible batch-shape pairs, ranks 2..6), Dot (ranks 1..6) and Transpose (ranks 2..6) cases with the sum-of-products term of every element over distinct symbols, checks A.I = A, (A.B)^T = B^T.A^T and Dot = MatMul(row, column) on the spec with rational entries, and emits those identities as programs; the harness compares every element of the real results." + BIG + "", "DESIGN.md 3/C04"),
+ "C05": sym("TLC enumerates every shape and every dim of the grid and emits the fibre-wise definition of Sum/Max/Min/Avg/Mean/Var/Std (whole tensor and Along(dim)), result shape = operand shape without dim; the harness compares every element for assignments with ties, zeros, single-element fibres and extreme magnitudes; invalid dims must be rejected." + BIG + "", "DESIGN.md 3/C05"),
+ "C06": sym("TLC enumerates Slice/Patch with every index form, block size and position, Concat, Reshape (every factorisation), Flatten/Squeeze/UnSqueeze (every dim), Broadcast targets and the constructors, checks the round-trip laws on the spec (syntactic equality), and emits the element wiring; the harness uses iota inputs, reads every tensor back through At at every multi-index and compares exactly." + BIG + "", "DESIGN.md 3/C06"),
+ "C07": sym("TLC enumerates explicit Broadcast (source x target grid) and every implicitly expanding operation over all compatible ordered shape pairs with either operand tracked, and emits the gradient by differentiation of the definition (= sum over copies). The harness compares every gradient element." + BIG + "" + KF, "DESIGN.md 3/C07"),
  "C12": sym("TLC emits the statement's loss formulas (clip = max(l, min(x, u)), clipping bounds as named constants) for every batch / class size of the grid; the harness evaluates them for predictions and targets drawn from 0, 1, <0, >1, +-1e6 and within 1e-12 of both clipping bounds, tracked and untracked, and also requires a finite non-negative rank-0 result.", "DESIGN.md 3/C12"),
  "C13": sym("Expected gradients are the symbolic derivative of the loss definitions (TLC proves on rational instances that they equal 2(p-t)/N, ((1-t)/(1-p)-t/p)/N, -(t/p)/N and 0 where clipped). The prediction is a leaf, an interior tensor of a small graph, or the output of FC->activation; the gradient of the prediction and of everything upstream is compared, untracked inputs must get none." + KF, "DESIGN.md 3/C13"),
- "C14": sym("TLC emits the defining formula of each activation for every shape of the grid, every Softmax dim (and nil configs), every LeakyRelu slope, plus Softmax's sum along dim; the harness compares every element for inputs including 0, -0 and |x| up to 700 and requires Softmax >= 0; invalid dims must be rejected.", "DESIGN.md 3/C14"),
+ "C14": sym("TLC emits the defining formula of each activation for every shape of the grid, every Softmax dim (and nil configs), every LeakyRelu slope, plus Softmax's sum along dim; the harness compares every element for inputs including 0, -0 and |x| up to 700 and requires Softmax >= 0; invalid dims must be rejected." + BIG + "", "DESIGN.md 3/C14"),
  "C15": sym("Expected gradients are the symbolic derivative of the activation definitions (TLC checks the Softmax closed form p_i(g_i - sum_j p_j g_j), s(1-s), 1-tanh^2); input as leaf and as interior tensor; at exactly 0 Relu/LeakyRelu accept any value between the one-sided derivatives (both one-sided readings are evaluated)." + KF, "DESIGN.md 3/C15"),
  "C16": sym("TLC emits y[b][o] = W[o]*sum_d x[b][d] + B[o] and its derivatives for all batch/feature/output sizes of the grid with distinct symbols, and checks on the spec that the library's composition computes that value; the harness replaces the layer's parameters through the Weights() pointers before Forward (so a Forward not reading through them fails) and compares values and gradients; spec/FCParams.tla enumerates EVERY history of Weights() calls, replacements (through old pointers, fresh pointers, the exported field) and Forward calls up to 5 (6) actions and each Forward is replayed." + KF, "DESIGN.md 3/C16 and 7.8"),
- "C17": sym("TLC emits w - lr*g for every shape and learning rate of the grid (nil config, 0, negative), g being the derivative of the back-propagated graph; the harness calls Update through the pointer and checks the new tensor element-wise, that the pointer target was replaced, that the old tensor object, its values and its gradient are bit-for-bit unchanged, and that a tensor without gradient is rejected with nothing replaced.", "DESIGN.md 3/C17"),
+ "C17": sym("TLC emits w - lr*g for every shape and learning rate of the grid (nil config, 0, negative), g being the derivative of the back-propagated graph; the harness calls Update through the pointer and checks the new tensor element-wise, that the pointer target was replaced, that the old tensor object, its values and its gradient are bit-for-bit unchanged, and that a tensor without gradient is rejected with nothing replaced." + BIG + "", "DESIGN.md 3/C17"),
 }
 
 MC_NOTE = ("Trusted: spec/Autograd.tla as the reading of the statement (its local VJPs and the total derivative come from symbolic differentiation of the operation definitions, not from backward rules); the verif hooks for tracked / spent flags and back-propagation events; exhaustive only within the stated bounds (tensors per history, value alphabet); larger graphs are reached by trace validation and symbolic replays, not exhaustively.")
